@@ -127,11 +127,11 @@ fn type_check(batch: &[(usize, String)]) -> Result<HashMap<usize, Vec<(String, S
         if let Some(spans) = m["spans"].as_array() {
             for s in spans {
                 if s["is_primary"] == true {
-                    file = s["file_name"].as_str().map(|x| x.to_string());
+                    file = crate::wire::site(s);
                 }
             }
             if file.is_none() {
-                file = spans.first().and_then(|s| s["file_name"].as_str()).map(|x| x.to_string());
+                file = spans.first().and_then(crate::wire::site);
             }
         }
         if let Some(f) = file {
@@ -142,7 +142,7 @@ fn type_check(batch: &[(usize, String)]) -> Result<HashMap<usize, Vec<(String, S
             }
         }
         // an error that cannot be attributed to a case file (e.g. in lib.rs) is a machinery problem
-        return Err(format!("unattributable rustc error: {code} {msg}"));
+        return Err(format!("unattributable rustc error: {code} {msg} (spans: {})", m["spans"].as_array().map(|a| a.iter().map(|s| format!("{}:{}", s["file_name"].as_str().unwrap_or("?"), s["line_start"])).collect::<Vec<_>>().join(", ")).unwrap_or_default()));
     }
     if !saw_any && !out.status.success() {
         return Err(format!("cargo check failed without diagnostics: {}", String::from_utf8_lossy(&out.stderr).chars().rev().take(500).collect::<String>().chars().rev().collect::<String>()));
